@@ -131,7 +131,7 @@ BIG_REGS = {"quick": ["type", "class"], "thorough": ["type", "class", "option", 
 def model_runs(ctx):
     """MC_Registries, one TLC process (1 worker = 1 slot) per mode group / slice of the 65536-value sweeps"""
     q = lambda xs: ", ".join('"%s"' % x for x in xs)
-    plan = [(["fields", "rcode", "ehi", "text", "header", "reg"], [], 1, 0), (["value"], SMALL_REGS, 1, 0)]
+    plan = [(["header", "reg"], [], 1, 0), (["fields"], [], 1, 0), (["rcode", "ehi", "text"], [], 1, 0), (["value"], SMALL_REGS, 1, 0)]
     plan += [(["flags"], [], 4, s) for s in range(4)]
     plan += [(["value"], [reg], 2, s) for reg in BIG_REGS[ctx.tier] for s in range(2)]
 
